@@ -44,6 +44,20 @@ def run(ck):
         ops = []       # (template fields with {D} for the directory, kind)
         # material: plaintext files and one valid encrypted file per history
         key = rnd_bytes(r, 16)
+        # a second key RELATED to the first (anything remembered per key - an expanded schedule, a verdict - and looked up by a
+        # comparison that is not over all 16 bytes shows only then): equal up to and including a 0x00 byte, or all but one byte equal
+        kk = bytearray(key)
+        rel = h % 3
+        if rel == 0:
+            j = r.choice([0, 1, 3, 7, 14])
+            kk[j] = 0
+            key = bytes(kk)
+            key2 = key[:j + 1] + rnd_bytes(r, 15 - j)
+        elif rel == 1:
+            kk[r.choice([0, 15, r.randrange(16)])] ^= 1 << r.randrange(8)
+            key2 = bytes(kk)
+        else:
+            key2 = rnd_bytes(r, 16)
         plain = rnd_bytes(r, r.choice([0, 5, 16, 50, 63, 64, 100, 130, 200]))
         for d in dirs.values():
             open(os.path.join(d, "p.bin"), "wb").write(plain)
@@ -54,6 +68,8 @@ def run(ck):
                 T = pre_meta[h][0]
             if k == 0:
                 ops.append((["enc", str(cm), str(hm), str(T), key.hex(), rnd_seed(r).hex(), wv.hexs(rnd_bytes(r, r.choice([0, 10, 64, 150])))], "api-enc"))
+            elif k in (9, 10):
+                ops.append((["enc", str(cm), str(hm), str(T), (key2 if i % 2 else key).hex(), rnd_seed(r).hex(), wv.hexs(rnd_bytes(r, r.choice([10, 64, 150])))], "api-enc-related-key"))
             elif k == 1:
                 ops.append((["cli", "{D}/c%d.wenc" % i, "-e", "-i", "{D}/p.bin", "-k", b64(key), "-o", "{D}/c%d.wenc" % i, "--cmode", str(cm), "--hmode", str(hm)] + (["-n"] if r.random() < 0.5 else []), "cli-enc"))
                 files[i] = "c%d.wenc" % i
